@@ -403,10 +403,10 @@ Proof. exact pyex_metadata_wf. Qed.
 
 (* written with enable_crcs = False: chunk crc 0, footer crc 0; the validating lexer accepts the file *)
 Example C16_pywrite_example_nocrc_lexed :
-  exists b evs st,
-    py_write pyex_nocrc_o pyex_calls = POk b
-    /\ b = render (py_trace pyex_nocrc_o pyex_calls)
-    /\ lex_all (pyex_lo true CbFull) ds_id 40 (src_of b false) = Ok (evs, EEOF, st)
+  exists evs st,
+    py_write pyex_nocrc_o pyex_calls = POk pyex_nocrc_bytes
+    /\ pyex_nocrc_bytes = render (py_trace pyex_nocrc_o pyex_calls)
+    /\ lex_all (pyex_lo true CbFull) ds_id 40 (src_of pyex_nocrc_bytes false) = Ok (evs, EEOF, st)
     /\ evs = file_events (pyex_lo true CbFull) ds_id (py_trace pyex_nocrc_o pyex_calls)
     /\ filter (ev_op OpMessage) evs = map (fun m => EvToken OpMessage (enc_message m)) (msgs_of pyex_cs).
 Proof. exact pyex_nocrc_lexed. Qed.
